@@ -271,7 +271,58 @@ func genSurface() {
 	g.line("")
 	g.line("(* IsProxied returns false without a scope and the scope's ReverseProxy flag otherwise *)")
 	g.line("Definition is_proxied_reads_scope_flag : bool := %v.", isProxiedOK)
+	// the reverse proxy's director: after the library's own director, the outgoing URL is made opaque and set to the
+	// request target as received (so the upstream sees the client's request line), and newReverseProxy installs it
+	const httpRel = "pkg/upstream/http.go"
+	directorOK, installed := false, 0
+	if hf := parse(httpRel); hf != nil {
+		for _, d := range hf.Decls {
+			fd, ok := d.(*ast.FuncDecl)
+			if !ok || fd.Body == nil {
+				continue
+			}
+			if fd.Name.Name == "setProxyDirector" {
+				directorOK = directorShape(httpRel, fd)
+			}
+			if fd.Name.Name == "newReverseProxy" {
+				ast.Inspect(fd.Body, func(n ast.Node) bool {
+					if c, ok := n.(*ast.CallExpr); ok && calleeName(c) == "setProxyDirector" {
+						installed++
+					}
+					return true
+				})
+			}
+		}
+	}
+	g.line("")
+	g.line("(* setProxyDirector: director(req); req.URL.Opaque = req.RequestURI; req.URL.RawQuery = \"\"; req.URL.ForceQuery = false *)")
+	g.line("Definition director_passes_request_uri : bool := %v.", directorOK)
+	g.line("(* calls of setProxyDirector inside newReverseProxy *)")
+	g.line("Definition director_installations : nat := %d.", installed)
 	g.write("Surface.v")
+}
+
+func directorShape(rel string, fd *ast.FuncDecl) bool {
+	t := func(n ast.Node) string { return strings.Join(strings.Fields(exprText(rel, n)), "") }
+	b := fd.Body.List
+	if len(b) != 2 || t(b[0]) != "director:=proxy.Director" {
+		return false
+	}
+	as, ok := b[1].(*ast.AssignStmt)
+	if !ok || len(as.Lhs) != 1 || len(as.Rhs) != 1 || t(as.Lhs[0]) != "proxy.Director" {
+		return false
+	}
+	fl, ok := as.Rhs[0].(*ast.FuncLit)
+	if !ok || len(fl.Body.List) != 4 {
+		return false
+	}
+	want := []string{"director(req)", "req.URL.Opaque=req.RequestURI", `req.URL.RawQuery=""`, "req.URL.ForceQuery=false"}
+	for i, st := range fl.Body.List {
+		if t(st) != want[i] {
+			return false
+		}
+	}
+	return true
 }
 
 // accessorShape: v := req.Header.Get(hdr); if !IsProxied(req) || v == "" { v = E }; return v
